@@ -795,6 +795,13 @@ def gen_dw_simple(rng):
     head = rng.choice(["entry", "entry", "entry", "unit root", "unit entry", "raw entry", "entry ?root",
                        "entry child", "unit root child", "unit ?1 root", "unit !0 entry", "unit ?1 entry",
                        "unit", "unit ?1", "entry ?3", "entry !0 !1", "raw", "raw unit", "cooked unit", "unit relem" if False else "unit"])
+    if rng.random() < 0.08:
+        # a DIE reached by reference, looked at in place, then asked for something that needs its abbreviation
+        return "%s %s %s %s" % (head if head.startswith(("entry", "unit root", "unit entry", "raw entry")) else "entry",
+                                rng.choice(["@AT_type", "@AT_sibling", "@AT_specification", "@AT_abstract_origin", "@AT_import", "@AT_type @AT_type"]),
+                                rng.choice(["!TAG_base_type", "?TAG_pointer_type", "!TAG_typedef", "!TAG_subprogram", "?TAG_base_type", "!AT_name", "?AT_name", "?haschildren", "!root"]),
+                                rng.choice(["abbrev code", "abbrev label", "abbrev", "abbrev attribute label", "label", "offset", "parent offset",
+                                            "attribute label", "child offset", "name", "\"%s\""]))
     n = rng.choice([1, 1, 2, 2, 3])
     words = [rng.choice(DW_DIE_WORDS) for _ in range(n)]
     k = rng.random()
